@@ -35,7 +35,8 @@ REQUIRED = ["Sqfs.C06.confinement", "Sqfs.C06.confinement_raw", "Sqfs.C06.plan_p
             "Sqfs.C06.skipped_reported_rest_unpacked", "Sqfs.C06.get_path_then_canonicalize_never_fails",
             "Sqfs.C06.confinement_under_faults", "Sqfs.C06.main_confinement", "Sqfs.C06.root_not_established_nothing_unpacked",
             "Sqfs.C06.failed_chdir_writes_nothing", "Sqfs.C06.failing_step_ends_run", "Sqfs.C06.failing_mkdir_p_ends_run",
-            "Sqfs.C06.success_means_everything_unpacked", "Sqfs.C06.exit_zero_of_all_fine", "Sqfs.C06.skip_reports_exact"]
+            "Sqfs.C06.success_means_everything_unpacked", "Sqfs.C06.exit_zero_of_all_fine", "Sqfs.C06.skip_reports_exact",
+            "Sqfs.C06.confinement_without_symlinks_below", "Sqfs.C06.main_confinement_weak", "Sqfs.C06.ordByLoc_is_a_fill_order"]
 TRACE = ("mkdir,mkdirat,symlink,symlinkat,mknod,mknodat,open,openat,creat,lsetxattr,setxattr,fsetxattr,utimensat,utimes,"
          "futimesat,utime,fchownat,chown,lchown,fchown,fchmodat,chmod,fchmod,chdir,fchdir,unlink,unlinkat,rename,renameat,"
          "renameat2,link,linkat,truncate,rmdir,removexattr,lremovexattr,chroot,mount")
@@ -1533,8 +1534,8 @@ def run(ctx):
         "harness/h_c06_fault.c (link-time wrappers that make one call fail)",
         "modelled: rdsquashfs.c (tree_sort, OP_UNPACK incl. mkdir_p/chdir), restore_fstree.c, fill_files.c, mkdir_p.c, dir_tree.c (sqfs_tree_node_get_path), read_tree.c "
         "(names as C strings, children only below directory inodes, --unpack-path lookup); canonicalize_name / is_filename_sane via the C18 model"],
-        assumptions=["the directory the tool stands in after chdir(R) is fresh: a directory with nothing below it that the run did not create (runs into a "
-                     "populated R are exercised and compared with the model, but no theorem covers them)",
+        assumptions=["the directory the tool stands in after chdir(R) has no symbolic link strictly below it before the run (in particular: is fresh); "
+                     "an R that already holds symbolic links is outside the property (Witness.C06.prepopulated_symlink_escapes) and not generated",
                      "no other process modifies R during the run"])
 
 
